@@ -428,7 +428,7 @@ class ActionLink(Action):
             # A nested target is instantiated as part of its parents, so it goes before any parent that is in the graph,
             # either as target or as source of another link, unless the parent is a source of the target (nested link)
             for target in sorted(targets, key=lambda x: len(split_key(x))):
-                parts = [x.replace("|", ".") for x in target.replace("init_args.", "init_args|").split(".")]
+                parts = [x.replace("|", ".") for x in re.sub(r"(^|\.)init_args\.", r"\1init_args|", target).split(".")]
                 for num in range(len(parts) - 1):
                     target_prefix = ".".join(parts[: num + 1])
                     if target_prefix in graph.nodes and not graph.has_edge(target_prefix, target):
